@@ -5,6 +5,7 @@ import (
 	"context"
 	"errors"
 	"fmt"
+	"io"
 	"strings"
 
 	"github.com/hack-pad/hackpadfs"
@@ -264,9 +265,12 @@ func runC14(t *T) {
 					// a later, fault-free modification through the handle that reported success: the file read by name
 					// now holds what the handle holds (one bad answer from the store must not have become handle state)
 					hb := make([]byte, 4096)
-					hn, _ := hackpadfs.ReadAtFile(hs.h, hb, 0)
+					hn, herr := hackpadfs.ReadAtFile(hs.h, hb, 0)
 					pb, perr := hackpadfs.ReadFile(st.fs, openPath)
-					if perr == nil && !bytes.Equal(hb[:hn], pb) {
+					// (a handle whose lazily loaded contents failed to load may go on failing -- the record memoises the
+					// failed load -- and then holds nothing to compare; a Truncate to the length the file already has is
+					// rightly a success without it)
+					if perr == nil && (herr == nil || herr == io.EOF) && !bytes.Equal(hb[:hn], pb) {
 						t.Fail("handle-write-not-stored", "C14:"+opName(o)+":ok-but-not-stored-after-earlier-fault", fmt.Sprintf("step %d %s on %s returned %q after the earlier store fault (%s), but %q read by name holds %q while the handle holds %q", i, o, st.name, res, plan.firedAt, openPath, clip(pb), clip(hb[:hn])))
 					}
 					t.Stat("c14:handle-vs-name-compared-after-fault")
